@@ -216,7 +216,7 @@ def known_orm(known, bkey, what, clause, info):
     return False
 
 
-def run_family(c, facts, fam, timeout, prop, known, clauses=None):
+def run_family(c, facts, fam, timeout, prop, known, clauses=None, template_fn=None):
     E, U, PV = c["E"], c["U"], c["PV"]
     is_call = fam.startswith("ormcall[")
     inner = fam[fam.index("[") + 1:-1]
@@ -318,6 +318,10 @@ def run_family(c, facts, fam, timeout, prop, known, clauses=None):
                 recs.append(("post.complete", z3.BoolVal(not missing), {"missing": "; ".join(missing), "result": repr(v)[:200]}))
                 leaks = data_leaks(E, v, data_ids)
                 recs.append(("rel.out", z3.BoolVal(not leaks), {"value_outside_binder": "; ".join(leaks)[:200], "result": repr(v)[:200]}))
+                if template_fn is not None:
+                    tr = template_fn(c, is_call, what if is_call else kind, path, node, arg_consts if is_call else None, v)
+                    if tr is not None:
+                        recs.append(("post.template", z3.BoolVal(bool(tr[0])), {"problem": tr[1], "result": repr(v)[:200]}))
             own = path.pc[path.ghost.get("pre_n", 0):]
             indep = frozenset(str(cnd) for cnd in own if not _mentions(z3.simplify(cnd), data_ids))
             clusters.setdefault(indep, []).append((idx, skeleton(v), path))
